@@ -8,6 +8,19 @@ HERE = os.path.dirname(os.path.dirname(os.path.abspath(__file__)))
 ALL = ["C%02d" % i for i in range(1, 21)]
 
 CHECKS = {
+ "C06": dict(
+  category="exploration",
+  text="Round-trip monitor inside an ASan+UBSan driver of the real generated code: for Ok views of generated modules (with "
+       "[text_output] Skip/Emit marks, dynamic offsets, conditionals, nested aggregates, arrays incl. multi-dimensional, enums, "
+       "floats, anonymous bits, parameters) and each of the 18 re-readable option sets (base 2/10/16 x digit grouping x "
+       "{multi-line, multi-line+comments, single-line}): UpdateFromText(WriteToString(v)) into a zeroed same-size buffer succeeds, "
+       "the new view is Ok and re-emits the identical text. Offline checker on single-line outputs: top-level field order vs the "
+       "model's dependency relation, Skip fields absent, unmarked/Emit fields present. Partial output + junk text on non-Ok views "
+       "feeds C04.",
+  note="Text equality of the re-emitted output stands for 'fields read back equal'. The integer codec clause is exercised "
+       "through every integer field (all bases, grouping) rather than by a separate exhaustive codec harness.",
+  technique="runtime round-trip monitor + offline checker over emitted text on sanitizer builds",
+  design_ref="5/C06"),
  "C20": dict(
   category="exploration",
   text="Reference-model + conservation monitor on recorded (a, b, op, result, a', b') tuples from the real generated Equals / "
